@@ -151,3 +151,10 @@ PROPS.update({
    components=dict(real=REAL_THR, simulated=SIM_THR, stubbed=["evthread_pthread.c (replaced by the simulator's lock and condition callbacks)"]), assumptions=ASSUME_THR,
    expected_probes=["del-while-callback-running"]),
 })
+PROPS.update({
+ "C08": dict(level="exploration", stages=multi(("h_evbuf", 400, 12000, 7, 150), ("h_bev", 3000, 60000, 8, 150), ("h_dns", 6000, 120000, 7, 120), ("h_dnss", 5000, 90000, 6, 100), ("h_thr", 4000, 80000, 7, 120), ("h_core", 12000, 250000, 6, 100)),
+   rule="six harnesses run with locking enabled (simulator-owned locks that record owner, recursion count and waiters; two of the three lock classes also run libevent's own lock debugging): every call into the library made by a harness goes through API(), which compares the number of lock acquisitions the calling thread holds before and after the call; the lock implementation reports an unlock by a non-owner, re-entry of a non-recursive lock, a lock freed while held, and a thread blocking with no runnable thread left (deadlock; with real second threads in h_thr). Error paths are reached by: the allocation-failure sweep of the evbuffer harness with evbuffer locking on (fail the n-th allocation for every n of each sampled call sequence), short / EAGAIN / EINTR / reset I/O and accept errors on thread-safe bufferevents and listeners, refused and unencodable DNS requests, sendto / recv faults and malformed packets under the evdns base and server-port locks, invalid arguments (priorities out of range, deletes of non-pending events); non-trivial when a fault fired or an API call failed in a run with locks (h_thr: cross-thread operations with more than 4 baton hand-overs); distinct = distinct trace hashes among non-trivial runs",
+   components=dict(real=REAL_CORE + REAL_BEV + REAL_BUF + ["evdns.c"], simulated=SIM_COMMON + SIM_NET + SIM_THR[:2], stubbed=["evthread_pthread.c (replaced by the simulator's lock callbacks)"]),
+   assumptions=ASSUME_S + ["allocation failures are injected only where the harness has a model of the failed call (evbuffer API); the other harnesses reach error paths through I/O faults and invalid input, not through failing allocations", "HTTP, RPC and WebSocket calls are not covered (no harness)"],
+   expected_probes=[]),
+})
